@@ -341,10 +341,15 @@ def run_property(spec: PropertySpec, tier: str, seed: int) -> int:
         crashed = 'driver not available'
 
     # failing-input search when the proof side or the correspondence is broken
+    known = load_known(pid)
+
+    def is_known(f):
+        return any(spec.classify and spec.classify(f, k) for k in known)
+
     corr_only = [f for f in outcome.failures if f.kind == 'correspondence']
     prop_fail = [f for f in outcome.failures if f.kind == 'property']
     searched = False
-    if (not proof_ok or corr_only) and not prop_fail and crashed is None:
+    if (not proof_ok or corr_only) and not [f for f in prop_fail if not is_known(f)] and crashed is None:
         searched = True
         try:
             more = spec.run(tier, seed + 7919, 10)
@@ -355,7 +360,6 @@ def run_property(spec: PropertySpec, tier: str, seed: int) -> int:
             crashed = traceback.format_exc()
 
     # 5. classification against the committed known findings
-    known = load_known(pid)
     known_hit: dict[str, int] = {}
     unknown: list[Failure] = []
     for f in prop_fail:
